@@ -11,9 +11,9 @@ def Op.mayWrite (s : State) (l : Nat) : Op → Prop
   | .layerSet l' _ _ => l' = l
   | .setCells l' _ _ => l' = l
   | .setFrom l' _ _ => l' = l
-  | .modifyCells l' _ _ => l' = l
+  | .modifyCells l' _ _ _ => l' = l
   | .modifyT l' _ _ _ => l' = l
-  | .modifyU l' _ _ _ => l' = l
+  | .modifyU l' _ _ _ _ => l' = l
   | .modifyCell l' _ _ => l' = l
   | .modifyCellU l' _ _ _ => l' = l
   | .cellSet n _ _ => s.named? n = some l
@@ -184,16 +184,20 @@ theorem value_stable {s : State} (hw : WF s) {l : Nat} (hl : l < s.nLayers) (op 
   | setCells l' w cond =>
     have hne : l' ≠ l := hno
     cases w with
-    | raw v => exact value_setCells hw hl l' v cond hne c
+    | raw v => exact vecGuard_fst (P := fun t => t.value l c = s.value l c) _ _ _ _ (value_setCells hw hl l' v cond hne c) rfl
     | py x =>
-      simp only [step]; unfold setCellsV
+      simp only [step]
+      refine vecGuard_fst (P := fun t => t.value l c = s.value l c) _ _ _ _ ?_ rfl
+      unfold setCellsV
       split
       · rfl
       · split
         · rfl
         · exact value_setCells hw hl l' _ cond hne c
-  | modifyCells l' f cond =>
-    simp only [step]; unfold modifyCells
+  | modifyCells l' vec f cond =>
+    simp only [step]
+    refine vecGuard_fst (P := fun t => t.value l c = s.value l c) _ _ _ _ ?_ rfl
+    unfold modifyCells
     split
     · rfl
     · next L hL =>
@@ -216,11 +220,16 @@ theorem value_stable {s : State} (hw : WF s) {l : Nat} (hl : l < s.nLayers) (op 
         · rfl
         · split
           · rfl
-          · have hne : l' ≠ l := hno
-            rw [value_upd hw hl' hl, if_neg (fun e => hne e.symm)]
-  | modifyT l' f cond rd => exact value_modifyCellsT hw hl l' f cond rd hno c
-  | modifyU l' op x cond =>
-    simp only [step]; unfold modifyU
+          · split
+            · rfl
+            · have hne : l' ≠ l := hno
+              rw [value_upd hw hl' hl, if_neg (fun e => hne e.symm)]
+  | modifyT l' f cond rd =>
+    exact vecGuard_fst (P := fun t => t.value l c = s.value l c) _ _ _ _ (value_modifyCellsT hw hl l' f cond rd hno c) rfl
+  | modifyU l' vec op x cond =>
+    simp only [step]
+    refine vecGuard_fst (P := fun t => t.value l c = s.value l c) _ _ _ _ ?_ rfl
+    unfold modifyU
     split
     · rfl
     · split
@@ -379,17 +388,22 @@ theorem nLayers_step (s : State) (op : Op) : s.nLayers ≤ (step s op).1.nLayers
   | cellGet2 l c => exact Nat.le_refl _
   | setCells l w cond =>
     cases w with
-    | raw v => exact Nat.le_of_eq (sameShape_setCells ..).nLayers.symm
-    | py x => exact Nat.le_of_eq (sameShape_setCellsV ..).nLayers.symm
-  | modifyCells l f cond =>
-    simp only [step]; unfold modifyCells
+    | raw v => exact vecGuard_fst (P := fun t => s.nLayers ≤ t.nLayers) _ _ _ _ (Nat.le_of_eq (sameShape_setCells ..).nLayers.symm) (Nat.le_refl _)
+    | py x => exact vecGuard_fst (P := fun t => s.nLayers ≤ t.nLayers) _ _ _ _ (Nat.le_of_eq (sameShape_setCellsV ..).nLayers.symm) (Nat.le_refl _)
+  | modifyCells l vec f cond =>
+    simp only [step]
+    refine vecGuard_fst (P := fun t => s.nLayers ≤ t.nLayers) _ _ _ _ ?_ (Nat.le_refl _)
+    unfold modifyCells
     split
     · exact Nat.le_refl _
     · split <;> exact Nat.le_refl _
   | setFrom l hd cond => exact Nat.le_of_eq (sameShape_setFrom ..).nLayers.symm
-  | modifyT l f cond rd => exact Nat.le_of_eq (shape_modifyCellsT s l f cond rd).1.symm
-  | modifyU l op x cond =>
-    simp only [step]; unfold modifyU
+  | modifyT l f cond rd =>
+    exact vecGuard_fst (P := fun t => s.nLayers ≤ t.nLayers) _ _ _ _ (Nat.le_of_eq (shape_modifyCellsT s l f cond rd).1.symm) (Nat.le_refl _)
+  | modifyU l vec op x cond =>
+    simp only [step]
+    refine vecGuard_fst (P := fun t => s.nLayers ≤ t.nLayers) _ _ _ _ ?_ (Nat.le_refl _)
+    unfold modifyU
     split
     · exact Nat.le_refl _
     · split
@@ -478,19 +492,24 @@ theorem shapes_run (t : State) (os : List Op) : (run t os).1.dims = t.dims ∧
       | cellGet2 l c => exact ⟨rfl, fun _ _ => rfl⟩
       | setCells l w cond =>
         cases w with
-        | raw v => exact ⟨(sameShape_setCells ..).dims, fun k _ => congrArg (fun f => (f k).dims) (sameShape_setCells ..).layers⟩
-        | py x => exact ⟨(sameShape_setCellsV ..).dims, fun k _ => congrArg (fun f => (f k).dims) (sameShape_setCellsV ..).layers⟩
+        | raw v => exact vecGuard_fst (P := fun u => u.dims = t.dims ∧ ∀ k, k < t.nLayers → (u.layers k).dims = (t.layers k).dims) _ _ _ _ ⟨(sameShape_setCells ..).dims, fun k _ => congrArg (fun f => (f k).dims) (sameShape_setCells ..).layers⟩ ⟨rfl, fun _ _ => rfl⟩
+        | py x => exact vecGuard_fst (P := fun u => u.dims = t.dims ∧ ∀ k, k < t.nLayers → (u.layers k).dims = (t.layers k).dims) _ _ _ _ ⟨(sameShape_setCellsV ..).dims, fun k _ => congrArg (fun f => (f k).dims) (sameShape_setCellsV ..).layers⟩ ⟨rfl, fun _ _ => rfl⟩
       | setFrom l hd cond => exact ⟨(sameShape_setFrom ..).dims, fun k _ => congrArg (fun f => (f k).dims) (sameShape_setFrom ..).layers⟩
-      | modifyT l f cond rd => exact ⟨(shape_modifyCellsT t l f cond rd).2.1, fun k _ => (shape_modifyCellsT t l f cond rd).2.2 k⟩
-      | modifyU l op x cond =>
-        simp only [step]; unfold modifyU
+      | modifyT l f cond rd =>
+        exact vecGuard_fst (P := fun u => u.dims = t.dims ∧ ∀ k, k < t.nLayers → (u.layers k).dims = (t.layers k).dims) _ _ _ _ ⟨(shape_modifyCellsT t l f cond rd).2.1, fun k _ => (shape_modifyCellsT t l f cond rd).2.2 k⟩ ⟨rfl, fun _ _ => rfl⟩
+      | modifyU l vec op x cond =>
+        simp only [step]
+        refine vecGuard_fst (P := fun u => u.dims = t.dims ∧ ∀ k, k < t.nLayers → (u.layers k).dims = (t.layers k).dims) _ _ _ _ ?_ ⟨rfl, fun _ _ => rfl⟩
+        unfold modifyU
         split
         · exact ⟨rfl, fun _ _ => rfl⟩
         · split
           · exact ⟨rfl, fun _ _ => rfl⟩
           · exact ⟨(shape_modifyCellsT ..).2.1, fun k _ => (shape_modifyCellsT ..).2.2 k⟩
-      | modifyCells l f cond =>
-        simp only [step]; unfold modifyCells
+      | modifyCells l vec f cond =>
+        simp only [step]
+        refine vecGuard_fst (P := fun u => u.dims = t.dims ∧ ∀ k, k < t.nLayers → (u.layers k).dims = (t.layers k).dims) _ _ _ _ ?_ ⟨rfl, fun _ _ => rfl⟩
+        unfold modifyCells
         split
         · exact ⟨rfl, fun _ _ => rfl⟩
         · next L hL =>
@@ -594,7 +613,23 @@ theorem step_gattrs (s : State) (op : Op) :
     ∃ m, op = .gridSet m ∧ s.named? m = none ∧ (step s op).1.gattrs = m :: s.gattrs := by
   cases op
   case cellSet n c w => exact Or.inl (cellSet_gattrs ..)
-  case setCells l w cond => cases w <;> simp only [step] <;> first | exact Or.inl (setCells_gattrs ..) | exact Or.inl (setCellsV_gattrs ..)
+  case setCells l w cond =>
+    cases w <;> simp only [step] <;> left <;>
+      first
+      | exact vecGuard_fst (P := fun t => t.gattrs = s.gattrs) _ _ _ _ (setCells_gattrs ..) rfl
+      | exact vecGuard_fst (P := fun t => t.gattrs = s.gattrs) _ _ _ _ (setCellsV_gattrs ..) rfl
+  case modifyCells l vec f cond =>
+    left; simp only [step]
+    refine vecGuard_fst (P := fun t => t.gattrs = s.gattrs) _ _ _ _ ?_ rfl
+    (unfold modifyCells; repeat' split) <;> rfl
+  case modifyT l f cond rd =>
+    left; simp only [step]
+    refine vecGuard_fst (P := fun t => t.gattrs = s.gattrs) _ _ _ _ ?_ rfl
+    (unfold modifyCellsT; repeat' split) <;> rfl
+  case modifyU l vec op x cond =>
+    left; simp only [step]
+    refine vecGuard_fst (P := fun t => t.gattrs = s.gattrs) _ _ _ _ ?_ rfl
+    (unfold modifyU modifyCellsT; repeat' split) <;> rfl
   case gridSet m =>
     simp only [step]; unfold gridSet
     split
